@@ -48,7 +48,7 @@ func runC01(w *World) {
 		return g.program(r, size)
 	})
 	a := w.addActor(n, "127.0.0.1:50001", prog)
-	a.onReply = func(op *Op) { hc.onReply(op, a.end.c.id) }
+	a.onReply = func(op *Op) { hc.onReply(op, a.end.c.name) }
 	w.RunChaos(size*40, a.done)
 	if !a.done() && !w.failed() {
 		w.Drain(20*time.Second, a.done)
